@@ -169,4 +169,40 @@ PROPS = {
         'trusted_base': COMMON_TB + ['modelled rather than verified: the scanner and readValue of parser.go', 'child processes with a wall-clock watchdog decide panic / fatal / timeout'],
         'assumptions': ['io.Reader either delivers bytes, fails, or reports EOF (a reader returning (0, nil) forever is outside)', 'user resolvers do not panic'],
     },
+    'C13': {
+        'level': 'proof',
+        'correspondence': 'Schema.loads_m (rule catalogue Schema.errors over the flat reading of the definitions) == Root.ParseString accept/refuse; Root.Types()/directives/operation roots read back == Schema.observe; error message cites an offender the catalogue cites',
+        'rule': ('generated well-formed definition sets (1-12 definitions: enums, directives with scalar/enum arguments, defaults and uses of earlier directives on their arguments, custom scalars, input objects, interfaces, objects implementing them with covariant/non-null results and extra optional arguments, unions, Query/Mutation, optional schema block; wrappers up to three deep; directive uses with literal arguments incl. nested lists at every location; descriptions) '
+                 'rendered by the harness printer, in written, shuffled or extend-split order; and for each set up to 8 (thorough: every applicable one of 37) single-rule violations: undefined type/directive/member/interface, duplicate type/field/argument/value/input field, reserved names in every position, input type in field position and output type (bare or wrapped) in argument / input-field / directive-argument position, missing/incompatible interface field or argument, union of non-object, empty definitions, directive at wrong location / undeclared argument / uncoercible value / missing required argument / bad default / unknown location / cycle of length 1-3, unknown schema operation, extension without base / of another kind / repeating a member. '
+                 'The real root loads the text; the extracted specification runs the same definitions; accept/refuse and the definitions read back from the root are compared, refusals must cite a name (or a line holding a name) the catalogue cites, and what an accepting root holds is re-checked with the extracted catalogue. non-trivial = a violation case or a set of at least 4 definitions; distinct by input text.'),
+        'explanation': ('Theorems C13_reachable_states_pass_the_catalogue, C13_type_names, C13_fields, C13_input_positions, C13_nonempty_and_unions, C13_interfaces (Coq; every definition list, every position incl. extend blocks, every wrapper depth) about the specification Schema.v; '
+                        'the specification is tied to root.go/sdlparser.go and the Validate methods by running both on the same documents. PARTIAL: the theorems state what acceptance implies for names, type classes, non-emptiness, unions and interfaces; the directive-use rules and the converse (a rule-abiding set is accepted) are carried by the correspondence only. '
+                        'Nine defects repaired by fix commits (see known_findings.json); F13 (directive uses on field definitions, field arguments and input fields are never validated) is pinned by TestInput/TestRootParseInput/TestRootReplaceRefsOk and recorded as known.'),
+        'trusted_base': COMMON_TB + ['modelled rather than verified: root.go addTypes/addExtends/ReplaceRefs/validate*/ParseReader, the Validate and Extend methods of every kind, sdlparser.go (as the map from text to definitions: the harness printer and the read-back walker are its inverse and are trusted)',
+                                     'the driver sorts every component of the flat reading before comparing (canonical form of a permutation class)',
+                                     'verif accessors VerifDirectives/VerifSchema/VerifArgs (read-only)'],
+        'assumptions': ['explicit "= null" defaults, duplicate directive uses on one definition, scalars declared twice, object-literal constants and body-less extensions (which the SDL parser refuses) are not generated', 'constants are judged for Int, Float, String, Boolean, ID, Int64, Float64 and enum types'],
+    },
+    'C14': {
+        'level': 'proof',
+        'correspondence': 'Schema.loads_m == a history of Root.ParseString/ParseReader calls on one root: accept/refuse per load, definitions and operation roots read back after every load; printed SDL(true,true), a full introspection response and two request responses compared before/after every refused load',
+        'rule': ('histories of 2-6 loads on one root: a valid first part; then 1-3 failing documents drawn from {a single-rule violation after valid content, valid content after which the text breaks off, a reader failing at a random offset, extensions of an accepted object/interface/enum/union/input followed by a failure (repeated member or undefined reference), a schema block followed by a failure}; then the valid remainder; sometimes the first part again (refused as duplicate). '
+                 'Observed after every load: accept/refuse, the definitions and operation roots read back, and whether SDL(true,true), the introspection response and the responses to two requests are byte-identical to before. non-trivial = at least one failing load; distinct by input text.'),
+        'explanation': ('Theorems C14_atomic, C14_history, C14_state_is_accepted_documents (Coq; every history, every failure class) about the history machine of Schema.v, where a refused load returns the state unchanged and every observable is a function of the state; tied to root.go ParseReader by running the same histories. '
+                        'Defects repaired by fix commits: operation roots left pointing at a rejected document (c087977), in-place extensions surviving a failed load (103b220).'),
+        'trusted_base': COMMON_TB + ['modelled rather than verified: root.go ParseReader (save tables, load, restore, undo extensions), sdlparser.go readSchema, Extend of every kind',
+                                     'AddTypes is not exercised by this check (ParseString/ParseReader only)'],
+        'assumptions': ['loads are sequential (no concurrent load)', 'reader faults are an error return from Read (not a panic)'],
+    },
+    'C16': {
+        'level': 'proof',
+        'correspondence': 'Schema.loads_m on an arrangement == the same arrangement loaded into a real root: accept/refuse per load, definitions and operation roots read back (sorted flat reading, directive-argument defaults filled in from the definitions now in the root)',
+        'rule': ('for each generated well-formed definition set (as for C13, incl. Subscription and schema blocks) the plain arrangement and 5 (thorough: 12) others drawn from: a random permutation in one document; members, values, interfaces and directives moved into extend blocks placed anywhere, then permuted; a cut into 1-3 successive loads in dependency order; extend-split then cut. '
+                 'Every arrangement is run through the real root and through the extracted specification, which is arrangement-independent by theorem; a partition that breaks references is refused by both. non-trivial = every non-plain arrangement; distinct by input text.'),
+        'explanation': ('Theorems C16_order_accept, C16_order_same_schema, C16_order_same_operation_roots, C16_defaults_filled_alike, C16_extend_split_accept, C16_extend_split_same_members, C16_partition (Coq; every definition list, every permutation, every split position, every partition) about Schema.v: the rule catalogue is invariant under permutation and under moving members into extend blocks (proof: every check is a fold of order-insensitive combinators over the flat reading; Schema_perm.v), and a fully accepted partition equals the one-document load of its concatenation. '
+                        'Tied to sdlparser.go/root.go by running arrangements on the real root. Introspection and request answers are functions of the definitions read back (C17 and C01 carry that step); they are not compared across arrangements here. Defects repaired: derived schema not following later loads (c087977), map-ordered extend input (bfac794), required directive argument accepted when the directive is defined after its use (eee00e4).'),
+        'trusted_base': COMMON_TB + ['modelled rather than verified: parser.go readType/readDirUse (known type or placeholder; defaults filled at scan time only for known directives), root.go ReplaceRefs/addExtends, typelist.go',
+                                     'the driver sorts every component before comparing (canonical form of a permutation class); the walker fills directive-argument defaults as the property states'],
+        'assumptions': ['arrangements keep every document parseable by ggql (extensions are printed with their braces / "=", an empty "union U =" only at the end of a document)'],
+    },
 }
